@@ -18,9 +18,14 @@ func selftest(argv []string) int {
 		os.Stdout = null
 	}
 	rc := cmdCheck([]string{"-property", "selftestfail", "-no-evidence"})
+	rc2 := cmdCheck([]string{"-property", "selftestrace", "-no-evidence"})
 	os.Stdout = saved
 	if rc != 1 {
 		fmt.Println("SELFTEST FAILED: a false assertion was not reported as a violation")
+		return 1
+	}
+	if rc2 != 1 {
+		fmt.Println("SELFTEST FAILED: a lost update under a read lock was not found by the scheduler model")
 		return 1
 	}
 	fmt.Println("selftest ok (corpus passes; the must-fail case was found and reproduced natively)")
